@@ -366,6 +366,9 @@ pub fn run_parallel(case: &Arc<TCase>, spec: crate::par::SchedSpec) -> (RunRepor
     match pr.result {
         Ok(mut rep) => {
             rep.schedule_hash = pr.schedule_hash;
+            if pr.stalls > 0 {
+                bump(&mut rep.counters, "fault:worker-stalled", pr.stalls);
+            }
             (rep, pr.schedule_hash, pr.scheduler_steps, pr.context_switches)
         }
         Err(p) => {
